@@ -49,6 +49,7 @@ for k in ks:
     def norm(c):
         c = re.sub(r"^\s*((?:[A-Z_]+=\S+\s+)+)", "", c or "")      # drop VAR=... prefixes (own env is used)
         c = re.sub(r"^cd \S+ && ", "", c)
+        c = re.sub(r"\s+\(.*$", "", c, flags=re.S)                    # drop a trailing parenthetical remark
         return c.strip()
     ex_cmd, demo_cmd = norm(ex_cmd), norm(demo_cmd)
     for c in (ex_cmd, demo_cmd):
